@@ -6,7 +6,7 @@
 From Coq Require Import ZArith List.
 From BS Require Import Model.Base Model.Num Model.LibVal Gen.ArgSpecs Model.LibSeq Proofs.C15.
 From BS Require Import Proofs.C15spec Proofs.C15histd Proofs.C15histe Proofs.C15histf.
-From BS Require Import Proofs.C15spec2 Proofs.C15str Proofs.C15histg Proofs.C15aeq Proofs.C15histi Proofs.C15histj.
+From BS Require Import Proofs.C15spec2 Proofs.C15str Proofs.C15histg Proofs.C15aeq Proofs.C15histi Proofs.C15histj Proofs.C15histk Proofs.C15spec3 Proofs.C15histl.
 From Coq Require Import SpecFloat.
 Import ListNotations.
 Local Open Scope Z_scope.
@@ -388,6 +388,24 @@ Example C15_history_with_strings_nonvacuous :
   /\ spec_run_s c15_hist_s ([], abs []) = Some (c15s_env, abs c15s_heap).
 Proof. vm_compute. repeat split; reflexivity. Qed.
 
+(* the string steps are PURE on the abstract machine, on ANY state and argument list: always defined, and either the state is
+   unchanged and the result is a scalar, or (stringSplit) exactly one fresh sequence of strings is bound and returned *)
+Theorem C15_string_steps_pure : forall f, in_tbl string_table f = true -> forall args m,
+  exists r m', call_in string_table f args m = Some (r, m') /\
+    ((m' = m /\ scalar_val (sres_value r) = true)
+     \/ (exists ps : list str, m' = m ++ [(length m, ASeq (map VStr ps))] /\ r = SOk (VArr (length m)))).
+Proof. exact string_table_pure. Qed.
+Print Assumptions C15_string_steps_pure.
+
+(* WELL-FORMED histories of OPS_S never get stuck (C15_history_results with the string functions): `wf_hist_s` = `wf_hist` with OPS_S *)
+Theorem C15_history_results_with_strings : forall ops e h, wf_state (e, h) = true -> wf_hist_s ops (e, h) = true ->
+  exists rs h', run_ops ops (e, h) = Some (e ++ rs, h') /\ spec_run_s ops (e, abs h) = Some (e ++ rs, abs h')
+                /\ length rs = length ops /\ wf_state (e ++ rs, h') = true /\ (length h <= length h')%nat.
+Proof. exact history_results_s. Qed.
+Print Assumptions C15_history_results_with_strings.
+Example C15_history_results_with_strings_nonvacuous : wf_state ([], []) = true /\ wf_hist_s c15_hist_s ([], []) = true.
+Proof. vm_compute. split; reflexivity. Qed.
+
 (* ====================================================================== HISTORY, third round: arrayIndexOf / arrayLastIndexOf
    Proofs/C15spec2.v part B: `aeq m a b r` = "comparing a with b in the abstract state m terminates with answer r", an INDUCTIVE
    relation (no fuel; a comparison that runs into a cycle has no derivation); `first_match` / `last_match` = the declarative
@@ -433,6 +451,23 @@ Theorem C15_relational_machine_extends : forall st o, op_in_OPS_s o = true -> st
 Proof. exact stepR_functional_on_OPS_s. Qed.
 Print Assumptions C15_relational_machine_extends.
 
+(* only the two searches can answer LFuel; a CHECKABLE sufficient condition for `no_fuel` (Proofs/C15spec3.v): `fuel_safe ops s`
+   (boolean, threaded through the run) = at every search call the heap is well-formed, `acyclic_b` (the nesting depth computed
+   with fuel = number of cells is a rank decreasing along every stored reference) and the arguments are well-formed *)
+Theorem C15_only_searches_give_up : forall f args h h', lib f args h = (LFuel, h') -> is_search f = true.
+Proof. exact only_searches_give_up. Qed.
+Print Assumptions C15_only_searches_give_up.
+Theorem C15_acyclic_check_sound : forall h, acyclic_b h = true -> acyclic h.
+Proof. exact acyclic_b_sound. Qed.
+Print Assumptions C15_acyclic_check_sound.
+Theorem C15_fuel_safe_no_fuel : forall ops st, fuel_safe ops st = true -> no_fuel ops st.
+Proof. exact fuel_safe_no_fuel. Qed.
+Print Assumptions C15_fuel_safe_no_fuel.
+Theorem C15_history_with_search_checked_partial : forall ops s, forallb op_in_OPS_x ops = true -> fuel_safe ops s = true ->
+  runR (abs_st s) ops (abs_st (fold_left run_op ops s)).
+Proof. exact history_search_checked. Qed.
+Print Assumptions C15_history_with_search_checked_partial.
+
 (* non-vacuity 1: 21 statements: split a string, push, search strings in the split result (first / from an index / last / last
    up to a float-spelled index / absent), DEEP searches (a copy of an array found inside another array; a copy of an object found
    by arrayLastIndexOf), slice, trim, failures (index >= length, wrong type, inf index).  Model by vm_compute; no call answers
@@ -467,24 +502,25 @@ Definition c15x_heap : heap :=
   [CArr [VStr (U "b"); VStr (U "a"); VStr (U "b"); VStr (U "c")]; CArr [VStr (U "a"); VStr (U "z")]; CArr [VArr 1%nat; VNum (NInt 5)];
    CArr [VStr (U "a"); VStr (U "z")]; CObj [(U "k", VArr 1%nat)]; CObj [(U "k", VArr 1%nat)]; CArr [VObj 4%nat]].
 Example C15_history_with_search_nonvacuous :
-  forallb op_in_OPS_x c15_hist_x = true /\ no_fuel c15_hist_x (Some ([], []))
+  forallb op_in_OPS_x c15_hist_x = true /\ fuel_safe c15_hist_x (Some ([], [])) = true /\ no_fuel c15_hist_x (Some ([], []))
   /\ run_ops c15_hist_x ([], []) = Some (c15x_env, c15x_heap)
   /\ runR (Some ([], abs [])) c15_hist_x (Some (c15x_env, abs c15x_heap))
   /\ forall st, runR (Some ([], abs [])) c15_hist_x st -> st = Some (c15x_env, abs c15x_heap).
 Proof.
   assert (O : forallb op_in_OPS_x c15_hist_x = true) by (vm_compute; reflexivity).
-  assert (NF : no_fuel c15_hist_x (Some ([], []))) by (vm_compute; repeat split; discriminate).
+  assert (FS : fuel_safe c15_hist_x (Some ([], [])) = true) by (vm_compute; reflexivity).
+  assert (NF : no_fuel c15_hist_x (Some ([], []))) by (apply fuel_safe_no_fuel; exact FS).
   assert (R : run_ops c15_hist_x ([], []) = Some (c15x_env, c15x_heap)) by (vm_compute; reflexivity).
   assert (H : runR (Some ([], abs [])) c15_hist_x (Some (c15x_env, abs c15x_heap))).
   { vm_cast_no_check (history_search c15_hist_x (Some ([], [])) O NF). }
-  split; [exact O|]. split; [exact NF|]. split; [exact R|]. split; [exact H|].
+  split; [exact O|]. split; [exact FS|]. split; [exact NF|]. split; [exact R|]. split; [exact H|].
   intros st H'. exact (runR_det _ _ _ _ H' H).
 Qed.
 Print Assumptions C15_history_with_search_nonvacuous.
 (* non-vacuity 2: a well-formed acyclic heap with nested containers (hypotheses of C15_search_no_fuel_on_acyclic) *)
-Example C15_acyclic_nonvacuous : heap_ok c15x_heap = true /\ acyclic c15x_heap.
+Example C15_acyclic_nonvacuous : heap_ok c15x_heap = true /\ acyclic_b c15x_heap = true /\ acyclic c15x_heap.
 Proof.
-  split; [vm_compute; reflexivity|]. exists (fun l => l).
+  split; [vm_compute; reflexivity|]. split; [vm_compute; reflexivity|]. exists (fun l => l).
   intros l c x l' G I V.
   do 7 (destruct l as [|l]; [simpl in G; inversion G; subst c; simpl in I;
                              repeat (destruct I as [<-|I]; [simpl in V; try discriminate; inversion V; subst; auto with arith|]); contradiction|]).
